@@ -150,6 +150,46 @@ def twin_scenario(rnd, lines, bases, kind, n):
                 lines.append("q %d :" % j)
 
 
+def twin_merge_scenario(rnd, lines, bases, kind, n):
+    """both generations of a re-loaded interface in ONE ancestry (reached through different bases): resolution orders work
+    by identity, so both objects are listed.  All nodes are fresh and the twins never share a base (two equal-keyed
+    dependents of one specification are one dictionary key: the recorded collision)."""
+    ifaces = [j for j in range(1, n) if kind[j] == "I"]
+    x, t, a, b, s = n, n + 1, n + 2, n + 3, n + 4
+    bx = rnd.sample(ifaces, min(len(ifaces), rnd.choice([0, 1, 1])))
+    anc_bx = set()
+    for j in bx:
+        anc_bx |= reach(bases, j)
+    by = [j for j in ifaces if j not in anc_bx and not (reach(bases, j) & anc_bx - {0})]
+    by = rnd.sample(by, min(len(by), rnd.choice([0, 0, 1])))
+    shape = rnd.choice(["AB", "AX", "XA"])
+    for i_, bs_ in ((x, bx), (t, []), (a, [x]), (b, [t])):
+        bases[i_], kind[i_] = bs_, "I"
+    lines.append("new %d I : %s" % (x, " ".join(map(str, bx))))
+    lines.append("newtwin %d %d I :" % (t, x))
+    if by:
+        bases[t] = by
+        lines.append("set %d : %s" % (t, " ".join(map(str, by))))
+    lines.append("new %d I : %d" % (a, x))
+    lines.append("new %d I : %d" % (b, t))
+    sb = {"AB": [a, b], "AX": [a, t], "XA": [b, x]}[shape]
+    bases[s], kind[s] = sb, "I"
+    if cpython_mirror_mro(bases, s) is None:
+        for i_ in (x, t, a, b, s):
+            bases.pop(i_, None)
+            kind.pop(i_, None)
+        del lines[-(4 + bool(by)):]
+        return
+    lines.append("new %d I : %s" % (s, " ".join(map(str, sb))))
+    for j in (x, t, a, b, s):
+        lines.append("qs %d :" % j)
+    # a dependent of S
+    d = n + 5
+    bases[d], kind[d] = [s], "I"
+    lines.append("new %d I : %d" % (d, s))
+    lines.append("qs %d :" % d)
+
+
 def gen_script(rnd, tier, env):
     """one script = one DAG + a rebasing history, with queries after every step"""
     big = tier == "thorough"
@@ -230,7 +270,10 @@ def gen_script(rnd, tier, env):
             for j in live[1:]:
                 lines.append("q %d :" % j)
     if env == "default" and len(live) == n and rnd.random() < 0.3:
-        twin_scenario(rnd, lines, bases, kind, n)
+        if rnd.random() < 0.5:
+            twin_scenario(rnd, lines, bases, kind, n)
+        else:
+            twin_merge_scenario(rnd, lines, bases, kind, n)
     return lines, stream
 
 
@@ -291,7 +334,7 @@ def oracle(chk, lines, outs, env, mode):
                 if all(rooted(b2, j) and nodup(b2, j) and cpython_mirror_mro(b2, j) is not None for j in down):
                     bad.append((i, "strict mode raised InconsistentResolutionOrderError on re-basing %s although every specification of the resulting hierarchy "
                                    "has a C3 linearization (a dependent was recomputed against the not-yet-updated order of another dependent; the hierarchy is left half-updated)" % f[1]))
-        elif f[0] == "q":
+        elif f[0] in ("q", "qs"):
             c = int(f[1])
             if c not in bases:
                 continue
@@ -307,6 +350,11 @@ def oracle(chk, lines, outs, env, mode):
             if ints(d["iro"]) != [x for x in sro if kind.get(x) == "I"]:
                 bad.append((i, "__iro__ is not __sro__ restricted to interfaces"))
             if env == "legacy":
+                continue
+            if f[0] == "qs":
+                pm = cpython_mirror_mro(bases, c) if nodup(bases, c) else None
+                if pm is not None and sro != pm:
+                    bad.append((i, "__sro__ %s differs from the C3 linearization %s (CPython MRO of the mirrored hierarchy)" % (sro, pm)))
                 continue
             if nodup(bases, c):
                 pm = cpython_mirror_mro(bases, c)
